@@ -236,7 +236,12 @@ def depend(rep: 'Report', world, module_name: str, rule_prefixes: tuple, as_rule
     dependency is a violation of this property too, unless listed for this property."""
     import importlib
     cache = world.__dict__.setdefault('_dep_cache', {})
+    if cache.get(module_name) == 'running':
+        # mutual dependency: the module that is being evaluated further up the stack reports its own rules
+        rep.rule(as_rule, text, floor=0)
+        return
     if module_name not in cache:
+        cache[module_name] = 'running'
         mod = importlib.import_module(f'tsa.{module_name}')
         sub = Report(rep.prop, tier=rep.tier, seed=rep.seed, quiet=True)
         try:
@@ -244,6 +249,8 @@ def depend(rep: 'Report', world, module_name: str, rule_prefixes: tuple, as_rule
             cache[module_name] = sub.instances
         except AnalysisError as e:
             cache[module_name] = AnalysisError(f'dependency {module_name}: {e}')
+        except Exception as e:
+            cache[module_name] = AnalysisError(f'dependency {module_name}: analyser raised {type(e).__name__}: {e}')
     if isinstance(cache[module_name], AnalysisError):
         raise cache[module_name]
     rep.rule(as_rule, text, floor=floor)
